@@ -1,6 +1,6 @@
 (* C17/FromDict.v — from_dict / adjust: a one-directional map dictionary always yields a
    symmetric converter (provided no wire name has surrounding whitespace). *)
-From Coq Require Import String Ascii List Bool Arith.
+From Coq Require Import String Ascii List Bool Arith NArith.
 From Verif Require Import Base.Str C17.Model C17.Spec C17.Proofs.
 Import ListNotations.
 Open Scope string_scope.
@@ -9,33 +9,7 @@ Lemma all_ascii (P : ascii -> Prop) :
   (forall b0 b1 b2 b3 b4 b5 b6 b7, P (Ascii b0 b1 b2 b3 b4 b5 b6 b7)) -> forall c, P c.
 Proof. intros H [b0 b1 b2 b3 b4 b5 b6 b7]. apply H. Qed.
 
-Lemma lower_char_idem c : lower_char (lower_char c) = lower_char c.
-Proof.
-  revert c. apply (all_ascii (fun c => lower_char (lower_char c) = lower_char c)).
-  intros [] [] [] [] [] [] [] []; vm_compute; reflexivity.
-Qed.
-
-Lemma is_ws_lower_char c : is_ws (lower_char c) = is_ws c.
-Proof.
-  revert c. apply (all_ascii (fun c => is_ws (lower_char c) = is_ws c)).
-  intros [] [] [] [] [] [] [] []; vm_compute; reflexivity.
-Qed.
-
-Lemma lower_idem s : lower (lower s) = lower s.
-Proof. induction s as [|c r IH]; cbn [lower]; [reflexivity|]. rewrite lower_char_idem, IH. reflexivity. Qed.
-
-Lemma last_char_lower s : last_char (lower s) = option_map lower_char (last_char s).
-Proof.
-  induction s as [|c r IH]; [reflexivity|]. cbn [lower].
-  destruct r as [|d r']; [reflexivity|]. cbn [lower last_char] in *. exact IH.
-Qed.
-
-Lemma no_outer_ws_lower s : no_outer_ws (lower s) = no_outer_ws s.
-Proof.
-  unfold no_outer_ws. rewrite last_char_lower. destruct s as [|c r]; [reflexivity|].
-  cbn [lower first_char]. destruct (last_char (String c r)) as [b|]; cbn [option_map]; [|reflexivity].
-  rewrite !is_ws_lower_char. reflexivity.
-Qed.
+(* lower_idem, no_outer_ws_lower: C17/Case.v (str.lower() on UTF-8 text, any names) *)
 
 Lemma in_from_items {A} (l : list (string * A)) k v : lookup k (from_items l) = Some v -> In (k, v) l.
 Proof.
@@ -94,4 +68,39 @@ Theorem from_dict_tables_nodup s m :
 Proof.
   unfold from_dict. destruct (s_fro s) as [f|], (s_to s) as [t|]; intros H; inversion H; subst; cbn [to_ fro];
     split; apply from_items_nodup.
+Qed.
+
+(* ---------------------------------------------------------------- names outside ASCII (round 6)
+   A one-directional map of a German / Greek deployment: "Straße" (sharp s), "κωδικός" (final sigma), "ÄRGER".
+   str.lower() keeps the sharp s and the final sigma and lower-cases the A with diaeresis; the map is symmetric,
+   the spellings str.lower() identifies reach the entry, the spellings only a coarser comparison identifies
+   ("STRASSE", "strasse": casefold / upper-casing; sigma for final sigma) do not. *)
+Definition u_strasse := sb [83;116;114;97;195;159;101]%N.                          (* "Straße" *)
+Definition u_STRAsSE := sb [83;84;82;65;225;186;158;69]%N.                          (* "STRAẞE", U+1E9E *)
+Definition u_kodikos := sb [206;186;207;137;206;180;206;185;206;186;207;140;207;130]%N.   (* "κωδικός" *)
+Definition u_kodikos_sigma := sb [206;186;207;137;206;180;206;185;206;186;207;140;207;131]%N.   (* "κωδικόσ" *)
+Definition u_AERGER := sb [195;132;82;71;69;82]%N.                                  (* "ÄRGER" *)
+Definition u_aerger := sb [195;164;114;103;101;114]%N.                              (* "ärger" *)
+
+Definition u_map : srcmap :=
+  {| s_ident := "urn:example:format:de";
+     s_to := Some [(u_strasse, "urn:example:attr:street"); (u_kodikos, "urn:example:attr:code"); (u_AERGER, u_AERGER)];
+     s_fro := None |}.
+
+Example non_ascii_names :
+  exists m, from_dict u_map = Some m /\ map_symmetric m /\
+    wire_name m u_strasse = Some "urn:example:attr:street" /\
+    wire_name m u_STRAsSE = Some "urn:example:attr:street" /\
+    wire_name m "STRASSE" = None /\ wire_name m "strasse" = None /\
+    wire_name m u_kodikos = Some "urn:example:attr:code" /\ wire_name m u_kodikos_sigma = None /\
+    wire_name m u_aerger = Some u_AERGER /\ local_name m u_AERGER = Some u_aerger /\
+    roundtrip [m] [(u_STRAsSE, ["Bahnhofstr. 1"]); (u_aerger, [" x "])] (nf m) false true
+    = Some [(lower u_strasse, [LStr "Bahnhofstr. 1"]); (u_aerger, [LStr "x"])]   (* adjust() lower-cases the mirror image *)
+    /\ lower u_strasse = sb [115;116;114;97;195;159;101]%N /\ lower u_STRAsSE = lower u_strasse.
+Proof.
+  destruct (from_dict u_map) as [m|] eqn:E; [|vm_compute in E; discriminate].
+  exists m. split; [reflexivity|]. split.
+  - apply (to_only_symmetric _ _ _ E). intros k n H. cbn in H.
+    destruct H as [H|[H|[H|[]]]]; injection H as _ <-; vm_compute; reflexivity.
+  - vm_compute in E. injection E as <-. vm_compute. repeat split.
 Qed.
